@@ -14,6 +14,7 @@ ls -d seeded/*/ | while read d; do
   [ -f $d/patch.diff ] || continue
   id=$(echo $name | grep -oE 'C[0-9]+' | head -1)
   others=$(grep -oE '^=== C[0-9]+' $d/eval.log 2>/dev/null | awk '{print $2}' | sort -u | grep -v "^$id$" | tr '\n' ' ')
-  echo "$name $id $others"
+  # (xargs -L continues a line that ends in a blank)
+  echo "$name $id $others" | sed 's/ *$//'
 done | xargs -P $par -L 1 sh -c 'name=$0; id=$1; shift; /verif/tools/mutate.sh fm-$name /verif/seeded/$name/patch.diff -- $id "$@" 2>&1 | grep -E "^===|^exit=|VIOLATION|INCONCLUSIVE" > /verif/seeded/$name/final.log; echo "done $name"'
 rm -rf $snap
